@@ -40,6 +40,9 @@ def report(rep, signature, what, replay):
     one noisy signature must not crowd out the others)."""
     n = _SEEN.get(signature, 0)
     _SEEN[signature] = n + 1
+    if os.environ.get("VERIF_DEBUG"):
+        import sys
+        print("report:", signature, {k: replay.get(k) for k in ("origin", "url", "fmt", "mode")}, file=sys.stderr)
     if n < 3:
         rep.violation(signature, what, replay)
 
